@@ -20,7 +20,7 @@ CONFORM = ['absent', 'none', 'value', 'value-static', 'value-instfunc', 'value-c
            'raise-AttributeError-static', 'raise-AttributeError-instfunc', 'raise-AttributeError-callableobj',
            # a __conform__ attribute that is None (opting out of an inherited one): counts as having none
            'attr-None-class', 'attr-None-instance']
-PROVIDED = ['no', 'class', 'direct']
+PROVIDED = ['no', 'class', 'direct', 'class-sub', 'direct-sub']     # '-sub': through an interface that extends the one asked for
 ALT = ['absent', 'given', 'none']
 # 'other-only:default': an interface class of its own (an interfacemethod) that does not customise __adapt__; placed
 # right before the customised ones and collected at once, so that their classes may land where its class was
@@ -127,11 +127,11 @@ def build_obj(conform, provided, iface, log, state):
             return state.get('conform_value')
         Base_ = type('ObjBase', (object,), {'__conform__': base_conform})
         cls = type('Obj', (Base_,), {'__conform__': None})
-        if provided == 'class':
-            classImplements(cls, iface)
+        if provided.startswith('class'):
+            classImplements(cls, sub_of(iface) if provided.endswith('-sub') else iface)
         obj = cls()
-        if provided == 'direct':
-            directlyProvides(obj, iface)
+        if provided.startswith('direct'):
+            directlyProvides(obj, sub_of(iface) if provided.endswith('-sub') else iface)
         return obj
     elif conform == 'attr-None-instance':
         inst_attrs['__conform__'] = None
@@ -141,14 +141,19 @@ def build_obj(conform, provided, iface, log, state):
             raise state['conform_exc']
         ns['__conform__'] = property(getter)
     cls = type('Obj', (object,), ns)
-    if provided == 'class':
-        classImplements(cls, iface)
+    if provided.startswith('class'):
+        classImplements(cls, sub_of(iface) if provided.endswith('-sub') else iface)
     obj = cls()
     for k, v in inst_attrs.items():
         setattr(obj, k, v)
-    if provided == 'direct':
-        directlyProvides(obj, iface)
+    if provided.startswith('direct'):
+        directlyProvides(obj, sub_of(iface) if provided.endswith('-sub') else iface)
     return obj
+
+
+def sub_of(iface):
+    """A plain interface that extends *iface* (whatever kind of interface that is)."""
+    return InterfaceClass('ITSub', (iface,), {}, __module__=util.fresh_module())
 
 
 def reference(conform, provided, hooks, alt, custom, obj, iface, state, direct_adapt=False):
@@ -253,10 +258,14 @@ def run_case(ctx, rng, job):
             log = []
             st = idx % 5
             ctx.count('value_style[%d]' % st)
+            # what hooks and a custom __adapt__ raise is of the kinds the machinery itself looks out for elsewhere
+            # (AttributeError for a missing __conform__, TypeError for an unbound one): none of them may be swallowed here
+            ek = [Marker, AttributeError, TypeError, KeyError, LookupError][(idx // 5) % 5]
+            ctx.count('exception_kind_from_hooks_and_adapt[%s]' % ek.__name__)
             state = {'conform_value': mkval(st, 'conform'), 'adapt_value': mkval(st, 'adapt'), 'alt': mkval(st, 'alt'),
                      'hook_values': [mkval(st, 'hook%d' % n) for n in range(len(hooks))],
-                     'hook_excs': [Marker('hook%d' % n) for n in range(len(hooks))],
-                     'adapt_exc': Marker('adapt')}
+                     'hook_excs': [ek('hook%d' % n) for n in range(len(hooks))],
+                     'adapt_exc': ek('adapt')}
             if conform.startswith(('raise-', 'get-')):
                 state['conform_exc'] = EXC[conform.split('-')[1]]('from conform')
             iface = build_iface(custom, log, state)
